@@ -212,9 +212,33 @@ def write_replay(prop: str, failure: dict) -> str:
     return path
 
 
+def warm_cache() -> None:
+    """Compile the kernels once, in one process, for the current sources, so that the (many) worker processes load them
+    from the cache instead of all compiling and writing the cache at the same time."""
+    cdir = os.environ.get("NUMBA_CACHE_DIR")
+    if not cdir:
+        return
+    marker = os.path.join(cdir, ".warm")
+    if os.path.exists(marker):
+        return
+    import subprocess
+
+    try:
+        subprocess.run([sys.executable, os.path.join(ROOT, "mc", "setup.py")], capture_output=True, timeout=900,
+                       env=dict(os.environ, VERIF_ROOT=ROOT))
+    except Exception:  # noqa: BLE001
+        pass
+    try:
+        with open(marker, "w") as f:
+            f.write("warmed\n")
+    except OSError:
+        pass
+
+
 def drive(mod, tier: str, seed: int) -> int:
     prop = mod.PROPERTY
     t0 = time.time()
+    warm_cache()
     if getattr(mod, "PREIMPORT", True):
         import speckit  # noqa: F401  (imported once here; forked workers inherit it)
     shards = mod.shards(tier, seed)
